@@ -390,6 +390,8 @@ def run_real(parser: ExpressionParser, text: str):
     except RecursionError:
         raise
     except Budget:
+        if Ctx.cur is not None:
+            Ctx.cur.steps = 0  # spent; what follows (reference model, model extraction) gets a new budget
         return "internal", "no result within the step / wall-clock budget (the parser does not terminate?)"
     except Exception as e:
         return "internal", f"{type(e).__name__}: {str(e)[:80]}"
